@@ -128,17 +128,17 @@ package ocidir
 //@   name os.Rename/BlobPut
 //@   in ~/scheme/ocidir
 //@   infunc \)\.BlobPut$
-//@   requires digest-is-computed: caller.d.Digest == $digestAt(caller.digester, $hv)
+//@   requires digest-is-computed: caller.d.Digest == $digestAt($ret(Digester, 0), $hv)
 //@   requires declared-digest-verified: !$valid(old(caller.d).Digest) || caller.d.Digest == old(caller.d).Digest
-//@   requires size-is-copied: caller.d.Size == caller.i
-//@   requires declared-size-verified: old(caller.d).Size <= 0 || caller.i == old(caller.d).Size
+//@   requires size-is-copied: caller.d.Size == $ret(Copy, 0)
+//@   requires declared-size-verified: old(caller.d).Size <= 0 || $ret(Copy, 0) == old(caller.d).Size
 //@   requires name-from-verified-digest: $valid(caller.d.Digest)
 //@ callsite io.Copy(dst, src)
 //@   prop C05
 //@   name io.Copy/BlobPut
 //@   in ~/scheme/ocidir
 //@   infunc \)\.BlobPut$
-//@   requires copies-through-digest-tee: $teeSrc(src) == old(caller.rdr) && $teeDst(src) == $hashOf(caller.digester)
+//@   requires copies-through-digest-tee: $teeSrc(src) == old(caller.rdr) && $teeDst(src) == $hashOf($ret(Digester, 0))
 //@ func (*OCIDir).BlobPut(ctx, r, d, rdr) (dOut, err)
 //@   prop C05
 //@   ensures result-truthful: err == nil ==> dOut.Digest == $digestAt(digester, $hv) && dOut.Size == i
